@@ -131,6 +131,26 @@ class Probe:
             self.ctx.fail(op, symptom, detail, variant=variant, case=self.case)
         return cond
 
+    def after_edit(self, op, res, src, want, variant=""):
+        """depth 2: write to every stored value of a conversion's result in place; the source of the conversion
+        must keep denoting the array it denoted (a conversion result is a value of its own, not a window)."""
+        self.ctx.tick()
+        try:
+            if isinstance(res, np.ndarray):
+                buf = res
+            elif O.kind_of(res) == "tensor":
+                buf = res.data
+            elif O.kind_of(res) == "sptensor":
+                buf = res.vals
+            else:
+                return True
+            if buf.size == 0 or not buf.flags.writeable:
+                return True
+            buf[...] = buf + 1
+        except Exception:  # noqa: BLE001
+            return True
+        return self.expect_array(op, src, want, variant=(variant + ":" if variant else "") + "source_after_write_to_result")
+
 
 def _run_dense_sparse(case, ctx):
     import pyttb as ttb
@@ -173,6 +193,7 @@ def _run_dense_sparse(case, ctx):
         ok, B = p.call("tensor." + nm, lambda: getattr(T, nm)())
         if ok:
             p.expect_array("tensor." + nm, B, A)
+            p.after_edit("tensor." + nm, B, T, A)
     # sparse holders in every stored order
     for o in space.orders(k, case.get("orders_upto", 3)):
         hd = dict(base, kind="sptensor", order=list(o))
@@ -186,6 +207,7 @@ def _run_dense_sparse(case, ctx):
             if ok:
                 q.expect_array("sptensor." + nm, B, A, kind=kind)
                 ctx.outcome(O.dense_of(B)) if nm == "full" else None
+                q.after_edit("sptensor." + nm, B, S, A)
         ok, nn = q.call("sptensor.nnz", lambda: S.nnz)
         if ok:
             q.expect("sptensor.nnz", nn == k, "wrong_nnz", f"{nn}!={k}")
@@ -469,6 +491,7 @@ def _run_kruskal(case, ctx):
         ok, B = p.call("ktensor." + nm, lambda: getattr(K, nm)())
         if ok:
             p.expect_array("ktensor." + nm, B, A, kind=kind)
+            p.after_edit("ktensor." + nm, B, K, A)
             if kind == "tensor":
                 p.expect("ktensor." + nm, O.pyshape(B.shape) == shape, "wrong_shape", str(B.shape))
     ok, Kc = p.call("ktensor.copy", lambda: K.copy())
@@ -503,6 +526,7 @@ def _run_tucker(case, ctx):
         ok, B = p.call("ttensor." + nm, lambda: getattr(T, nm)(), variant=hd["core"])
         if ok:
             p.expect_array("ttensor." + nm, B, A, kind=kind, variant=hd["core"])
+            p.after_edit("ttensor." + nm, B, T, A, variant=hd["core"])
             if kind == "tensor":
                 p.expect("ttensor." + nm, O.pyshape(B.shape) == shape, "wrong_shape", str(B.shape), hd["core"])
     ok, Tc = p.call("ttensor.copy", lambda: T.copy())
@@ -527,6 +551,7 @@ def _run_sum(case, ctx):
             p.expect_array("sumtensor." + nm, B, A, kind=kind, variant=variant)
             # the parts must still denote what they did (full() accumulates in place)
             p.expect_array("sumtensor." + nm, S, A, variant=variant + ":parts_after")
+            p.after_edit("sumtensor." + nm, B, S, A, variant=variant)
     S = H.build(hd)
     p.expect("sumtensor.shape", O.pyshape(S.shape) == shape, "wrong_shape", str(S.shape))
     ok, Sc = p.call("sumtensor.copy", lambda: S.copy())
